@@ -42,7 +42,8 @@ func body(r *sim.Run) {
 		secrets[i] = []byte(fmt.Sprintf("secret-%d-%x", i, t.Intn(1<<16)))
 	}
 	servers := []string{"a.example", "b.example", "a.example"}
-	users := []string{"@alice:a.example", "@bob:a.example", "@alice:b.example"}
+	// user IDs are case-sensitive: include pairs that differ only in case
+	users := []string{"@alice:a.example", "@bob:a.example", "@alice:b.example", "@Alice:a.example", "@alice:A.example"}
 	// Start at a tape-chosen second inside the minute / hour so that minute
 	// and hour boundaries are crossed at varied offsets.
 	time.Sleep(time.Duration(sim.Pick(t, []int{0, 1, 30, 58, 59, 3540, 3599, 86399})) * time.Second)
